@@ -148,6 +148,16 @@ fn isolation(thorough: bool, rep: &mut Report) -> (u64, u64) {
     (n, distinct.len() as u64)
 }
 
+/// endpoints of the filter search: `layout` 0 = the two endpoints differ by group address, 1 = by port only,
+/// 2 = by the source address of the with-source form only (same group, same port; the sourceless forms are
+/// then one and the same endpoint, so layout 2 is only used for probes / entries WITH a source)
+fn fep(layout: u8, n: u8, src: bool) -> UDPEndpoint {
+    match layout {
+        1 => UDPEndpoint::new(if src { Some("10.0.0.1".to_string()) } else { None }, "224.0.0.1".to_string(), 3400 + n as u16),
+        _ => ep(n, src),
+    }
+}
+
 // ------------------------------------------------------------------------------------------------
 // (2) TSI filter
 
@@ -179,13 +189,17 @@ pub struct FSys {
     last_vec: Vec<bool>,
     wildcard_hit: bool,
     bypass_hit: bool,
+    layout: u8,
 }
 
 impl FSys {
     pub fn new() -> FSys {
+        FSys::with_layout(0)
+    }
+    pub fn with_layout(layout: u8) -> FSys {
         let mon = Mon::new(true);
         let rx = MultiReceiver::new(mon.builder(), Some(recv_config(true)), true);
-        let mut s = FSys { rx, mon, cnt: BTreeMap::new(), bypass: BTreeMap::new(), probe_id: 1, filtering: true, viol: vec![], last_vec: vec![], wildcard_hit: false, bypass_hit: false };
+        let mut s = FSys { rx, mon, cnt: BTreeMap::new(), bypass: BTreeMap::new(), probe_id: 1, filtering: true, viol: vec![], last_vec: vec![], wildcard_hit: false, bypass_hit: false, layout };
         s.probe();
         s
     }
@@ -212,7 +226,7 @@ impl FSys {
                     self.probe_id += 1;
                     let before = self.mon.0.fdts.borrow().len();
                     let pkt = probe_packet(tsi, self.probe_id & 0xFFFFF);
-                    let endpoint = ep(e, src);
+                    let endpoint = fep(self.layout, e, src);
                     let r = catch(std::panic::AssertUnwindSafe(|| self.rx.push(&endpoint, &pkt, t0())));
                     if let Err(p) = r {
                         self.viol.push((format!("C18/panic/{}", panic_sig(&p)), format!("probe panicked: {}", p)));
@@ -262,17 +276,17 @@ impl Sys for FSys {
     fn apply(&mut self, op: &FOp) {
         match op {
             FOp::Add(e, s, t) => {
-                self.rx.add_listen_tsi(ep(*e, *s), *t);
+                self.rx.add_listen_tsi(fep(self.layout, *e, *s), *t);
                 *self.cnt.entry((*e, *s, *t)).or_insert(0) += 1;
             }
             FOp::Remove(e, s, t) => {
-                self.rx.remove_listen_tsi(&ep(*e, *s), *t);
+                self.rx.remove_listen_tsi(&fep(self.layout, *e, *s), *t);
                 if let Some(c) = self.cnt.get_mut(&(*e, *s, *t)) {
                     *c = c.saturating_sub(1);
                 }
             }
             FOp::AddAll(e, s) => {
-                self.rx.add_listen_all_tsi(ep(*e, *s));
+                self.rx.add_listen_all_tsi(fep(self.layout, *e, *s));
                 *self.bypass.entry((*e, *s)).or_insert(0) += 1;
             }
             FOp::Filtering(on) => {
@@ -280,7 +294,7 @@ impl Sys for FSys {
                 self.filtering = *on;
             }
             FOp::RemoveAll(e, s) => {
-                self.rx.remove_listen_all_tsi(&ep(*e, *s));
+                self.rx.remove_listen_all_tsi(&fep(self.layout, *e, *s));
                 if let Some(c) = self.bypass.get_mut(&(*e, *s)) {
                     *c = c.saturating_sub(1);
                 }
@@ -566,7 +580,23 @@ pub fn run(thorough: bool) -> i32 {
     let (n_iso, d_iso) = isolation(thorough, &mut rep);
     // (2)
     let depth = if thorough { 7 } else { 4 };
-    let (st, found) = bfs(FSys::new, depth, 4_000_000);
+    let (mut st, mut found) = bfs(FSys::new, depth, 4_000_000);
+    // the same search with two endpoints that differ by their port only
+    {
+        let (st1, found1) = bfs(|| FSys::with_layout(1), if thorough { depth - 1 } else { depth }, 4_000_000);
+        st.states += st1.states;
+        st.transitions += st1.transitions;
+        st.capped |= st1.capped;
+        for (k, n) in st1.witnesses {
+            *st.witnesses.entry(k).or_insert(0) += n;
+        }
+        for mut f in found1 {
+            if !found.iter().any(|x| x.sig == f.sig) {
+                f.what = format!("(endpoints differing by port only) {}", f.what);
+                found.push(f);
+            }
+        }
+    }
     for f in found {
         rep.add(Violation { key: f.sig, what: f.what, case: json!({"check": "filter", "case": {"history": f.history}}) });
     }
